@@ -24,12 +24,12 @@ stage, or has the property `Q` from which the end of the run (`T`) follows. -/
 theorem run_gen (S : Conn → Prop) (Q : Conn → Prop) (T : Conn → String → Prop)
     (hcong : ∀ c c', S c → c'.phase = c.phase → c'.scripts = c.scripts → c'.stop = c.stop →
       c'.env.mutex = c.env.mutex → TrSame c.env.tr c'.env.tr → S c')
-    (hpoll : ∀ c, S c → (∃ c', Halts (6 * c.env.tr.input.length + 20) c c' .pending ∧ Link c c' ∧ S c' ∧
+    (hpoll : ∀ c, S c → (∃ c', Halts (6 * c.env.tr.input.length + 26) c c' .pending ∧ Link c c' ∧ S c' ∧
       c'.env.tr.woken = true ∧ ans c'.env.tr < ans c.env.tr) ∨ Q c)
-    (hQ : ∀ (c : Conn) (n f : Nat), c.env.segs = [] → Q (prePoll c n none) →
-      6 * c.env.tr.input.length + 20 ≤ 100000 → ∃ c'' fin, runTask (f + 1) c n none = (c'', fin) ∧ T c'' fin) :
+    (hQ : ∀ (c : Conn) (n f : Nat), S c → c.env.segs = [] → Q (prePoll c n none) → ans c.env.tr ≤ f →
+      6 * c.env.tr.input.length + 26 ≤ 100000 → ∃ c'' fin, runTask (f + 1) c n none = (c'', fin) ∧ T c'' fin) :
     ∀ (A : Nat) (c : Conn) (n fuel : Nat), S c → c.env.segs = [] → ans c.env.tr ≤ A → A + 1 ≤ fuel →
-      6 * c.env.tr.input.length + 20 ≤ 100000 → ∃ c'' fin, runTask fuel c n none = (c'', fin) ∧ T c'' fin := by
+      6 * c.env.tr.input.length + 26 ≤ 100000 → ∃ c'' fin, runTask fuel c n none = (c'', fin) ∧ T c'' fin := by
   intro A
   induction A with
   | zero =>
@@ -39,7 +39,7 @@ theorem run_gen (S : Conn → Prop) (Q : Conn → Prop) (T : Conn → String →
     have hans0 : ans (prePoll c n none).env.tr = ans c.env.tr := by unfold ans; rw [hsame.rd, hsame.wr]
     rcases hpoll _ (hcong _ _ hS hph hsc hstop hmx hsame) with ⟨c', hh, hl, hS', hw, ha⟩ | hq
     · omega
-    · exact hQ c n f hsegs hq hlen
+    · exact hQ c n f hS hsegs hq (by omega) hlen
   | succ A ih =>
     intro c n fuel hS hsegs hA hf hlen
     obtain ⟨f, rfl⟩ : ∃ f, fuel = f + 1 := ⟨fuel - 1, by omega⟩
@@ -48,7 +48,7 @@ theorem run_gen (S : Conn → Prop) (Q : Conn → Prop) (T : Conn → String →
     rcases hpoll _ (hcong _ _ hS hph hsc hstop hmx hsame) with ⟨c', hh, hl, hS', hw, ha⟩ | hq
     · have hpoll' := hh.poll (F := 100000) (by rw [hsame.input]; exact hlen)
       have hsg' : c'.env.segs = [] := hl.segs.trans hsg
-      have hlen' : 6 * c'.env.tr.input.length + 20 ≤ 100000 := by
+      have hlen' : 6 * c'.env.tr.input.length + 26 ≤ 100000 := by
         have := hl.ts.inp
         rw [hsame.input] at this
         omega
@@ -57,7 +57,7 @@ theorem run_gen (S : Conn → Prop) (Q : Conn → Prop) (T : Conn → String →
       rw [runTask_succ, hpoll']
       simp only [hw, if_true]
       exact h1
-    · exact hQ c n f hsegs hq hlen
+    · exact hQ c n f hS hsegs hq (by omega) hlen
 
 /-! ## The aborted request -/
 
@@ -246,5 +246,394 @@ theorem bclose_out {g : Cfg} {pr : Bool} {hrest : List HOp} {c : Conn} {r r2 : A
     exact .closeW (r := r2) (rest' := rest') rfl hO (by show CEndW g r2 t'.input; rw [hinp]; exact hce) hm
       (by show t'.wlog ++ rest' ++ g.epi = _; rw [hl, ← hlog, hd]; simp only [List.append_assoc])
       (hb.step hts) hstop (hev.step hts) (hra.step hts) hsc
+
+/-! ## The reference on the aborted stream's wire -/
+
+theorem stop_add_abort : ∀ n, Stop.add n (.abort 0) = .abort n := by
+  intro n
+  induction n with
+  | zero => rfl
+  | succ n ih => simp only [Stop.add, ih, Stop.succ]
+
+/-- the records of the stream before the abort, the `AbortRequest` record, then ANY bytes: the
+reference stops in front of the `AbortRequest` record -/
+theorem refWire_abort (E : Str.Cfg) (hs : E.s = 5 ∨ E.s = 8) (hid : E.id < 65536) {content : Bytes}
+    {body : List Rec} (hb : Body E.id E.s content body) (a : Rec) (ha : a.WF)
+    (hcls : rclass E a = .abort) (tail : Bytes) :
+    refWire E (serAll (body ++ [a]) ++ tail) =
+      ⟨content, owedStream E.id E.s E.mc body, .err .abortRequest, a.ser ++ tail⟩ := by
+  have hwf : ∀ r ∈ body ++ [a], r.WF := by
+    intro r hr
+    rcases List.mem_append.1 hr with hr | hr
+    · exact body_wf hid hb r hr
+    · rw [List.mem_singleton.1 hr]; exact ha
+  have htl : refRun E [a] = ⟨[], [], .abort 0⟩ := by simp only [refRun, hcls]
+  rw [← ref_eq_refWire E .skip, ref_serAll E _ hwf tail .skip, refRun_body_app hs hb, htl]
+  simp only [stop_add_abort, glue, List.append_nil, List.drop_left', C02.serAll_single]
+
+theorem isAbort_wf {id : Nat} {a : Rec} (h : IsAbort id a) (hid : id < 65536) : a.WF :=
+  ⟨by rw [h.2.1]; exact hid, h.2.2.1, h.2.2.2⟩
+
+theorem kaok {g : Cfg} {a : Rec} {tail : Bytes} {pr : Bool} {rest : List HOp} (ok : AbOK g a tail pr rest) :
+    g.KA.Aborted := by
+  have hid := (pid_of_wf ok.wf).2
+  have hwa := isAbort_wf ok.ab hid
+  have hcls : rclass ⟨g.p.id, g.p.role, 5, g.mc⟩ a = .abort := by
+    simp [rclass, ok.ab.1, ok.ab.2.1, RT.isInputStream, RT.abortRequest]
+  have hXs : g.X = serAll (g.body ++ [a]) ++ tail := by
+    rw [ok.hX, C02.serAll_append, C02.serAll_single, List.append_assoc]
+  have href := refWire_abort ⟨g.p.id, g.p.role, 5, g.mc⟩ (Or.inl rfl) hid ok.body a hwa hcls tail
+  have hwf : ∀ r ∈ g.body ++ [a], r.WF := by
+    intro r hr
+    rcases List.mem_append.1 hr with hr | hr
+    · exact body_wf hid ok.body r hr
+    · rw [List.mem_singleton.1 hr]; exact hwa
+  have h24 := cap24 g
+  refine ⟨?_, ?_, by show 8 ≤ g.cap; omega⟩
+  · show refWire ⟨g.p.id, g.p.role, 5, g.mc⟩ g.X = _
+    rw [hXs, href]
+    simp only [Cfg.KA, ok.hU]
+  · intro G hG hv
+    have hG' : G <+: serAll (g.body ++ [a]) ++ tail := by rw [← hXs]; exact hG
+    have hfull : (refWire ⟨g.p.id, g.p.role, 5, g.mc⟩ (serAll (g.body ++ [a]))).verdict ≠ .more := by
+      have := refWire_abort ⟨g.p.id, g.p.role, 5, g.mc⟩ (Or.inl rfl) hid ok.body a hwa hcls []
+      rw [List.append_nil] at this
+      rw [this]; intro h; cases h
+    rcases prefix_append_cases hG' with ⟨e, rfl, _⟩ | ⟨t, _, hFt⟩
+    · exfalso
+      have := refWire_abort ⟨g.p.id, g.p.role, 5, g.mc⟩ (Or.inl rfl) hid ok.body a hwa hcls e
+      have hv' : (refWire ⟨g.p.id, g.p.role, 5, g.mc⟩ (serAll (g.body ++ [a]) ++ e)).verdict = .more := hv
+      rw [this] at hv'
+      cases hv'
+    · refine stream_fits ⟨g.p.id, g.p.role, 5, g.mc⟩ _ hwf hfull
+        (by show 8 ≤ alignedBufsize g.b; exact Nat.le_trans (by omega) h24) ?_ G ⟨t, hFt⟩ hv
+      intro r hr hg
+      rcases List.mem_append.1 hr with hr | hr
+      · exact ok.bfits r hr hg
+      · rw [List.mem_singleton.1 hr] at hg
+        exact absurd hg.1 (by rw [ok.ab.1]; decide)
+
+/-! ## The handler phase -/
+
+theorem AtAbort.congr {K : RCtx} {L P : Bytes} {r : AReq} {t t' : Transport} (h : AtAbort K L P r t)
+    (hi : t'.input = t.input) (hw : t'.wlog = t.wlog) : AtAbort K L P r t' :=
+  ⟨h.lock, h.pay, h.pad, by rw [hi]; exact h.wire, h.sinv, h.req, h.capK, h.mcK, by rw [hw]; exact h.log⟩
+
+/-- `close` called right after the handler is done with the aborted request -/
+theorem bclose_start {g : Cfg} {a : Rec} {tail : Bytes} {pr : Bool} {rest : List HOp}
+    (ok : AbOK g a tail pr rest) {c : Conn} {r : AReq} (hph : c.phase = .closing r .start g.st 0)
+    (hat : AtAbort g.KA g.L1 [] r c.env.tr) (hwr : r.writeable = true) (hm : c.env.mutex = none)
+    (hb : Ben c.env.tr) (hstop : c.stop = false) (hev : Ev1 g c.env.tr) (hra : RaEv g c.env.tr)
+    (hsc : c.scripts = g.more) : BRes g pr rest 2 c := by
+  have hfin : REnd g.N r c.env.tr.input := by
+    refine ⟨hwr, hat.lock, hat.pay, hat.pad, hat.wire, hat.req, hat.capK, hat.mcK, ?_, hat.sinv⟩
+    have := hat.sinv.1
+    have hc := hat.capK
+    simp only [Str.Parser.freeStart] at this
+    show r.sp.raw.length ≤ g.cap
+    have hc' : r.sp.cap = g.cap := hc
+    omega
+  obtain ⟨heq, hce⟩ := close_start_eq (g := g) hfin
+  obtain ⟨O1, hl1, hl2⟩ := hat.log
+  have hO : O1 ++ r.sp.output = g.Ot := by rw [hl2, ok.hOt]; rfl
+  exact bclose_out hO hph (by rw [hm]; exact heq) hce hm (by rw [hl1]; rfl) hb hstop hev hra hsc
+
+/-- One poll that starts with the handler in its `readAll`. -/
+theorem bread_core {g : Cfg} {a : Rec} {tail : Bytes} {pr : Bool} {rest : List HOp}
+    (ok : AbOK g a tail pr rest) {c : Conn} {r : AReq} {h : HState} (hph : c.phase = .handler r h)
+    (hr : HReadA g.KA rest pr g.L1 r h c.env) (hwr : r.writeable = true) (hb : Ben c.env.tr)
+    (hstop : c.stop = false) (hev : Ev1 g c.env.tr) (hsc : c.scripts = g.more) :
+    BRes g pr rest 4 c := by
+  obtain ⟨ops, sub, ws, prop⟩ := h
+  obtain ⟨hops, hws, hpr, ⟨dO, hs⟩⟩ := hr
+  simp only at hops hws hpr hs
+  subst hops hws hpr
+  have hK := kaok ok
+  obtain ⟨G0, hi0⟩ := hs.inv
+  have hrl := hi0.rem_leA hK
+  have hfuel := handlerFuel_ge c.env
+  have hfu := ok.hfu
+  have hcapK : g.KA.cap = alignedBufsize g.b := rfl
+  have hstep := C07.handler_step c r _ hph
+  rcases readAll_runA hK (L := g.L1) (P := []) rest [] prop
+      (2 * ((g.KA.C.length - (accOf sub).length) / 64) + 2 * c.env.tr.input.length + 2) (handlerFuel c.env)
+      r sub c.env dO 1 (by omega) (by omega) (fun h => by omega) hb hs with
+    ⟨r', acc', e', dO', d1, d3, d5, d6, d8, d9, d10⟩ |
+    ⟨r', acc, lost, e', f', d1, d2, d3, d4, d5, d6, d7, d8⟩
+  · rw [d1] at hstep
+    have hstep' : stepConn c = .halt ⟨.handler r' ⟨.readAll :: rest, .readAllAcc acc', [], prop⟩, e', c.scripts, c.stop⟩
+        .pending := hstep
+    exact Or.inl ⟨_, Halts.now hstep' |>.mono (by omega), ⟨d6.w, d5, rfl⟩,
+      .hread rfl ⟨rfl, rfl, rfl, dO', d3⟩ (d10 hwr) (hb.step d6) hstop (hev.step d6) hsc, d8, d9⟩
+  · -- the read failed with `ConnectionAborted`
+    have hts1 : TStep c.env.tr (e'.ev (raEvent acc)).tr := d7.trans (TStep.ev _ (isHS_raEvent _))
+    have hra1 : RaEv g (e'.ev (raEvent acc)).tr :=
+      ⟨acc, lost, d3, by show raEvent acc ∈ e'.tr.events ++ [raEvent acc]; simp⟩
+    -- what the connection does once the handler has returned `res` with status `g.st`
+    have fin : ∀ (ev : String), isHS ev = false →
+        stepConn c = .next ⟨.closing r' .start g.st 0, (e'.ev (raEvent acc)).ev ev, c.scripts, c.stop⟩ →
+        BRes g prop rest 4 c := by
+      intro ev hq hstep'
+      have hts2 : TStep c.env.tr ((e'.ev (raEvent acc)).ev ev).tr := hts1.trans (TStep.ev _ hq)
+      have hcore := bclose_start ok
+        (c := ⟨.closing r' .start g.st 0, (e'.ev (raEvent acc)).ev ev, c.scripts, c.stop⟩) rfl
+        (d4.congr rfl rfl) (d8 hwr) d5 (hb.step hts2) hstop (hev.step hts2)
+        (hra1.step (TStep.ev _ hq)) hsc
+      exact (BRes.of_steps (Steps.one hstep') ⟨hts2.w, d6, rfl⟩ hcore).mono (by omega)
+    rcases ok.mode with ⟨hp, hst⟩ | ⟨hp, hrest⟩
+    · subst hp
+      simp only [if_true] at d1
+      rw [d1] at hstep
+      simp only [if_true] at hstep
+      refine fin "HE(err:abort-request)" (by decide) ?_
+      rw [hst]
+      exact hstep
+    · subst hp hrest
+      simp only [Bool.false_eq_true, if_false] at d1
+      obtain ⟨f2, rfl⟩ : ∃ f2, f' = f2 + 1 := ⟨f' - 1, by omega⟩
+      rw [hp_ret] at d1
+      rw [d1] at hstep
+      exact fin s!"HE(ok:{showStatus g.st})" (by simp [isHS, toString_str]) hstep
+
+/-! ## `parse_request` of the aborted request -/
+
+theorem bns {g : Cfg} {a : Rec} {tail : Bytes} {pr : Bool} {rest : List HOp} (ok : AbOK g a tail pr rest) :
+    NoStuckW g.cap g.mc g.W := noStuck_of ok.wf g.X g.b g.mc ok.pairs ok.noise
+
+theorem bparse_poll {g : Cfg} {a : Rec} {tail : Bytes} {pr : Bool} {rest : List HOp}
+    (ok : AbOK g a tail pr rest) {c : Conn} {F : Bytes}
+    (hst : PSt g.cap g.mc g.W g.L0 [] c F) (hsc : c.scripts = (.readAll :: rest, pr) :: g.more)
+    (hm : c.env.mutex = none) (hev : hsCount c.env.tr.events = g.hs0) :
+    BRes g pr rest (2 * c.env.tr.input.length + 8) c := by
+  obtain ⟨n, c1, F1, hn, hs, hfr, hout⟩ := parse_loop (cap24 g) (bns ok) _ c F hst (Nat.le_refl _)
+  have hnb : n ≤ 2 * c.env.tr.input.length + 2 := by have := wbit_le c; omega
+  rcases hout with ⟨c2, h1, h2, h3, h4, h5⟩ | ⟨wrest, t', hph, hf, hw, hstop1, hben1, hrem1, hwa, hlog, hts', hinp'⟩ |
+      ⟨hin, hnf, hph, hst1⟩
+  · refine Or.inl ⟨c2, ⟨n, c1, by omega, hs, h1⟩, hfr.link.trans h3.link, ?_, h4,
+      by have := hfr.ts.ans_le; omega⟩
+    have hts := hfr.ts.trans h3.ts
+    exact .parse h2 (h3.scripts.trans (hfr.scripts.trans hsc)) (h3.mutex.trans (hfr.mutex.trans hm))
+      (hts.hs.trans hev)
+  · -- the preamble is complete and its replies are written: the handler starts
+    have hsc1 : c1.scripts = (.readAll :: rest, pr) :: g.more := hfr.scripts.trans hsc
+    have hmx1 : c1.env.mutex = none := hfr.mutex.trans hm
+    have hw' : F1 ++ c1.env.tr.input = g.W := by simpa using hw
+    have hF1 : F1 <+: serAll g.recs ++ g.X := ⟨c1.env.tr.input, by simpa [Cfg.W] using hw'⟩
+    rcases C06.run_wire_state ok.wf g.X hF1 g.mc with ⟨e1, hFe, he1, hrun⟩ | ⟨t, _, _, hnf⟩
+    · have hd : (track g.cap g.mc F1).state = .done g.p.request := by simp only [track, hrun]
+      obtain ⟨r, hrq, hr, hstep⟩ := C07.done_starts_handler c1 (track g.cap g.mc F1) wrest [] t' g.p.request
+        hph hstop1 hwa hd
+      rw [hsc1] at hstep
+      have hcap : (track g.cap g.mc F1).cap = g.cap := rfl
+      have hinput : (track g.cap g.mc F1).input = e1 := by simp only [track, hrun]
+      have hmc : (track g.cap g.mc F1).maxConns = g.mc := rfl
+      rw [hcap, hinput, hmc] at hr
+      subst hr
+      have hwire : e1 ++ c1.env.tr.input = g.X := by
+        have : F1 ++ c1.env.tr.input = serAll g.recs ++ g.X := by simpa [Cfg.W] using hw'
+        rw [hFe, List.append_assoc] at this
+        exact List.append_cancel_left this
+      have he1len : e1.length ≤ g.cap := by
+        have := hrem1; rw [hrun] at this; exact this
+      have hL1 : t'.wlog = g.L1 := by rw [hlog, hrun]; rfl
+      have hstep' : stepConn c1 = .next
+          ⟨.handler (AReq.new (Str.Parser.fromParser g.cap g.p.request e1 g.mc))
+              { ops := .readAll :: rest, propagate := pr },
+            (⟨t', c1.env.mutex, c1.env.segs⟩ : Run.Env).ev (hsEvent g.p.request), g.more, false⟩ := hstep
+      have hwsE : WStep c1.env.tr (t'.ev (hsEvent g.p.request)) :=
+        hts'.w.trans ⟨List.suffix_refl _, List.suffix_refl _, rfl, rfl, Or.inl rfl, Nat.le_refl _,
+          fun s hs => List.mem_append_left _ hs⟩
+      have hev1 : Ev1 g (t'.ev (hsEvent g.p.request)) := by
+        have h0 : hsCount t'.events = g.hs0 := (hfr.ts.trans hts').hs.trans hev
+        constructor
+        · show hsCount (t'.events ++ [hsEvent g.p.request]) = g.hs0 + 1
+          rw [hsCount_append, h0, hsCount_single_true (isHS_hsEvent _)]
+        · show hsEvent g.p.request ∈ t'.events ++ [hsEvent g.p.request]
+          simp
+      have hben2 : Ben (t'.ev (hsEvent g.p.request)) := hben1.wstep hwsE
+      -- the request at the handler start
+      have hstart : C03SI.Start g.KA.E (Str.Parser.fromParser g.cap g.p.request e1 g.mc) :=
+        C03SI.start_fresh g.cap g.p.request e1 g.mc he1len (pid_of_wf ok.wf).2 (Or.inl ok.role)
+      have hrinv : RInv g.KA (AReq.new (Str.Parser.fromParser g.cap g.p.request e1 g.mc)) e1 t'.input [] [] := by
+        refine ⟨hstart.mtch, hstart.inv, rfl, rfl, rfl, by rw [hinp']; exact hwire, fun x => ?_⟩
+        have := C03SI.rem_start hstart x
+        show refWire g.KA.E (e1 ++ x) = (Rem g.KA.E (Str.Parser.fromParser g.cap g.p.request e1 g.mc) x).pre [] []
+        rw [this]; rfl
+      have hwr : (AReq.new (Str.Parser.fromParser g.cap g.p.request e1 g.mc)).writeable = true := by
+        simp [AReq.new, Str.Parser.fromParser, Preamble.request, ok.role, inputStreams]
+      have hcore := bread_core ok
+        (c := ⟨.handler (AReq.new (Str.Parser.fromParser g.cap g.p.request e1 g.mc))
+                { ops := .readAll :: rest, propagate := pr },
+            (⟨t', c1.env.mutex, c1.env.segs⟩ : Run.Env).ev (hsEvent g.p.request), g.more, false⟩) rfl
+        ⟨rfl, rfl, rfl, [], ⟨⟨e1, hrinv⟩, by
+            show LockInv _ c1.env.mutex
+            rw [hmx1]; exact lockInv_free rfl, Or.inl hmx1, ⟨[], by
+              show t'.wlog = g.L1 ++ []
+              rw [hL1, List.append_nil], rfl⟩⟩⟩
+        hwr hben2 rfl hev1 rfl
+      have hres := BRes.of_steps (hs.trans (Steps.one hstep')) (hfr.link.trans ⟨hwsE, rfl, hstop1.symm ▸ rfl⟩) hcore
+      exact hres.mono (by omega)
+    · rw [hf] at hnf; cases hnf
+  · exfalso
+    have hF1 : F1 = g.W := by
+      have := hst1.wire
+      rwa [hin, List.append_nil, List.append_nil] at this
+    rcases C06.run_wire_state ok.wf g.X (F := F1) (by rw [hF1]; exact List.prefix_refl _) g.mc with
+      ⟨e1, hFe, he1, hrun⟩ | ⟨t, ht, hFt, _⟩
+    · rw [hrun] at hnf; cases hnf
+    · rw [hF1, Cfg.W] at hFt
+      have := congrArg List.length hFt
+      have : 0 < t.length := List.length_pos_iff.mpr ht
+      simp only [List.length_append] at *
+      omega
+
+/-- **One poll** of the connection task from any stage of the aborted request. -/
+theorem bstage_poll {g : Cfg} {a : Rec} {tail : Bytes} {pr : Bool} {rest : List HOp}
+    (ok : AbOK g a tail pr rest) {c : Conn} (hst : BStage g pr rest c) :
+    BRes g pr rest (2 * c.env.tr.input.length + 9) c := by
+  cases hst with
+  | @start raw hph hwire hraw hlog hb hstop hsc hm hev =>
+    have hpre : raw <+: g.W := ⟨c.env.tr.input, hwire⟩
+    have hstart := start_track (cap24 g) hraw (bns ok _ hpre)
+    have hstep := step_start c _ hph hstop
+    rw [hstart] at hstep
+    have hstep' : stepConn c = .next (mkC c (.parseReq (track g.cap g.mc raw)
+        (.writing (run .header raw g.mc).out (run .header raw g.mc).st.isFinal)) c.env.tr) := hstep
+    have hremle : (run .header raw g.mc).rem.length ≤ g.cap := by
+      have := (run_ok raw g.mc (st := .header) trivial).2.2.length_le
+      omega
+    have hst : PSt g.cap g.mc g.W g.L0 [] (mkC c (.parseReq (track g.cap g.mc raw)
+        (.writing (run .header raw g.mc).out (run .header raw g.mc).st.isFinal)) c.env.tr) raw :=
+      ⟨by show raw ++ c.env.tr.input ++ [] = g.W
+          rw [List.append_nil]; exact hwire,
+        hstop, hb, hremle, Or.inr ⟨_, rfl, by show c.env.tr.wlog ++ _ = _; rw [hlog]⟩⟩
+    have := BRes.of_steps (Steps.one hstep') (mkC_link c _ (.refl _)) (bparse_poll ok hst hsc hm hev)
+    exact this.mono (by show 1 + (2 * c.env.tr.input.length + 8) ≤ _; omega)
+  | parse hst hsc hm hev => exact (bparse_poll ok hst hsc hm hev).mono (by omega)
+  | @hread r h hph hr hwr hb hstop hev hsc => exact (bread_core ok hph hr hwr hb hstop hev hsc).mono (by omega)
+  | @closeW r rest' O1 O2 hph hO hce hm hlog hb hstop hev hra hsc =>
+    refine (bclose_out (r2 := r) (rest := rest') hO hph ?_ hce hm hlog hb hstop hev hra hsc).mono (by omega)
+    rw [closePoll_late _ _ _ _ _ _ rfl]
+  | @close r rest' O1 O2 hph hO hce hm hlog hb hstop hev hra hsc =>
+    refine (bclose_core (r2 := r) (rest := rest') hO hph ?_ (.refl _) rfl hce hm hlog hb hstop hev hra hsc).mono
+      (by omega)
+    rw [closePoll_late _ _ _ _ _ _ rfl]
+    rfl
+
+theorem TrSame.ra {g : Cfg} {t t' : Transport} (h : TrSame t t') (hr : RaEv g t) : RaEv g t' := by
+  obtain ⟨acc, lost, h1, h2⟩ := hr
+  exact ⟨acc, lost, h1, h.mem h2⟩
+
+theorem BStage.cong {g : Cfg} {pr : Bool} {rest : List HOp} {c c' : Conn} (h : BStage g pr rest c)
+    (hph : c'.phase = c.phase) (hsc : c'.scripts = c.scripts) (hstop : c'.stop = c.stop)
+    (hm : c'.env.mutex = c.env.mutex) (hs : TrSame c.env.tr c'.env.tr) : BStage g pr rest c' := by
+  cases h with
+  | start hph0 hwire hraw hlog hb hstop0 hsc0 hm0 hev =>
+    exact .start (hph.trans hph0) (by rw [hs.input]; exact hwire) hraw (hs.wlog.trans hlog) (hs.ben hb)
+      (hstop.trans hstop0) (hsc.trans hsc0) (hm.trans hm0) (hs.hs.trans hev)
+  | parse hst hsc0 hm0 hev =>
+    exact .parse (hst.cong hph hstop hs) (hsc.trans hsc0) (hm.trans hm0) (hs.hs.trans hev)
+  | @hread r h hph0 hr hwr hb hstop0 hev hsc0 =>
+    refine .hread (hph.trans hph0) ?_ hwr (hs.ben hb) (hstop.trans hstop0) (hs.ev1 hev) (hsc.trans hsc0)
+    obtain ⟨dO, h1⟩ := hr.rem
+    exact ⟨hr.ops, hr.ws, hr.pr, dO, h1.cong hm hs⟩
+  | @closeW r rest' O1 O2 hph0 hO hce hm0 hlog hb hstop0 hev hra hsc0 =>
+    exact .closeW (hph.trans hph0) hO (by rw [hs.input]; exact hce) (hm.trans hm0) (by rw [hs.wlog]; exact hlog)
+      (hs.ben hb) (hstop.trans hstop0) (hs.ev1 hev) (hs.ra hra) (hsc.trans hsc0)
+  | @close r rest' O1 O2 hph0 hO hce hm0 hlog hb hstop0 hev hra hsc0 =>
+    exact .close (hph.trans hph0) hO (by rw [hs.input]; exact hce) (hm.trans hm0) (by rw [hs.wlog]; exact hlog)
+      (hs.ben hb) (hstop.trans hstop0) (hs.ev1 hev) (hs.ra hra) (hsc.trans hsc0)
+
+/-! ## The executor for the aborted request -/
+
+/-- **Without KEEP_CONN**: `runTask` started in a stage of the aborted request returns (`RET`) with
+the connection finished once `close` has written the epilogue. -/
+theorem run_abort_nokeep {g : Cfg} {a : Rec} {tail : Bytes} {pr : Bool} {rest : List HOp}
+    (ok : AbOK g a tail pr rest) (hnk : g.p.flags.toNat % 2 = 0) (c : Conn) (n fuel : Nat)
+    (hst : BStage g pr rest c) (hsegs : c.env.segs = []) (hf : ans c.env.tr + 1 ≤ fuel)
+    (hlen : 6 * c.env.tr.input.length + 26 ≤ 100000) :
+    ∃ c'' O1 O2, runTask fuel c n none = (c'', "RET") ∧ O1 ++ O2 = g.Ot ∧ FinB g O1 O2 c'' := by
+  obtain ⟨c'', fin, hrun, rfl, O1, O2, hO, hfin⟩ := run_gen (BStage g pr rest)
+    (fun c0 => ∃ c' O1 O2, Halts (6 * c0.env.tr.input.length + 26) c0 c' .finished ∧ O1 ++ O2 = g.Ot ∧ FinB g O1 O2 c')
+    (fun c'' fin => fin = "RET" ∧ ∃ O1 O2, O1 ++ O2 = g.Ot ∧ FinB g O1 O2 c'')
+    (fun _ _ h a b c d e => h.cong a b c d e)
+    (fun c0 h => by
+      rcases bstage_poll ok h with ⟨c', hh, hl, hS, hw, ha⟩ | ⟨k, c1, O1, O2, _, _, _, _, haf⟩ | ⟨c', O1, O2, hh, hl, hO, hf⟩
+      · exact Or.inl ⟨c', hh.mono (by omega), hl, hS, hw, ha⟩
+      · have := haf.keep; omega
+      · exact Or.inr ⟨c', O1, O2, hh.mono (by omega), hO, hf⟩)
+    (fun c0 n0 f0 _ hsg ⟨c', O1, O2, hh, hO, hfb⟩ _ hlen0 => by
+      obtain ⟨hsame, _⟩ := prePoll_same c0 n0 hsg
+      have hpoll := hh.poll (F := 100000) (by rw [hsame.input]; exact hlen0)
+      exact ⟨c', "RET", by rw [runTask_succ, hpoll], rfl, O1, O2, hO, hfb⟩)
+    (ans c.env.tr) c n fuel hst hsegs (Nat.le_refl _) hf hlen
+  exact ⟨c'', O1, O2, hrun, hO, hfin⟩
+
+/-- `g'` is the request the client sends behind the `AbortRequest` record, in the same transport. -/
+structure NextOK (g g' : Cfg) : Prop where
+  ok : g'.OK
+  b : g'.b = g.b
+  mc : g'.mc = g.mc
+  hs0 : g'.hs0 = g.hs0 + 1
+  more : g.more = (g'.hscript, true) :: g'.more
+  wire : g.U = g'.W
+  keep : g.p.flags.toNat % 2 = 1
+
+theorem After.stage {g g' : Cfg} {O1 O2 : Bytes} {c : Conn} (h : After g O1 O2 c) (hn : NextOK g g') :
+    Stage (g'.at (g.LA O1 O2)) c := by
+  obtain ⟨raw, hph, hw, hraw⟩ := h.ph
+  have hcap : g'.cap = g.cap := by simp only [Cfg.cap, hn.b]
+  refine .start (raw := raw) ?_ ?_ ?_ h.log h.ben h.stop (h.sc.trans hn.more) h.mtx (h.ev.1.trans hn.hs0.symm)
+  · show c.phase = .parseReq ⟨g'.cap, raw, .header, g'.mc⟩ .start
+    rw [hcap, hn.mc]; exact hph
+  · show raw ++ c.env.tr.input = g'.W
+    rw [← hn.wire]; exact hw
+  · show raw.length ≤ g'.cap
+    rw [hcap]; exact hraw
+
+/-- **With KEEP_CONN and a request `g'` following in the transport**: `runTask` started in a stage of
+the aborted request closes it (log `g.LA O1 O2`), then serves `g'` to its end exactly as
+`run_from_stage` says for `g'` started on that log — its preamble parse begins with the
+`AbortRequest` record, which the stream parser left unconsumed (it is `g'.recs`' first record). -/
+theorem run_abort_next {g g' : Cfg} {a : Rec} {tail : Bytes} {pr : Bool} {rest : List HOp}
+    (ok : AbOK g a tail pr rest) (hn : NextOK g g') (em : EndMode) (c : Conn) (n fuel : Nat)
+    (hst : BStage g pr rest c) (hem : c.env.tr.endMode = em) (hsegs : c.env.segs = [])
+    (hf : ans c.env.tr + 1 ≤ fuel) (hlen : 6 * c.env.tr.input.length + 26 ≤ 100000) :
+    ∃ c'' fin O1 O2 P1 P2, runTask fuel c n none = (c'', fin) ∧ O1 ++ O2 = g.Ot ∧ P1 ++ P2 = g'.Ot ∧
+      c''.env.tr.endMode = em ∧ RaEv g c''.env.tr ∧ hsEvent g.p.request ∈ c''.env.tr.events ∧
+      ((fin = "RET" ∧ Fin (g'.at (g.LA O1 O2)) P1 P2 c'') ∨
+       (fin = "STALL" ∧ Parked (g'.at (g.LA O1 O2)) P1 P2 c'')) := by
+  obtain ⟨c'', fin, hrun, O1, O2, P1, P2, h1, h2, h3, h4, h5, h6⟩ := run_gen
+    (fun c0 => BStage g pr rest c0 ∧ c0.env.tr.endMode = em)
+    (fun c0 => ∃ k c1 O1 O2, k ≤ 2 * c0.env.tr.input.length + 9 ∧ Steps k c0 c1 ∧ Link c0 c1 ∧ O1 ++ O2 = g.Ot ∧
+      After g O1 O2 c1)
+    (fun c'' fin => ∃ O1 O2 P1 P2, O1 ++ O2 = g.Ot ∧ P1 ++ P2 = g'.Ot ∧
+      c''.env.tr.endMode = em ∧ RaEv g c''.env.tr ∧ hsEvent g.p.request ∈ c''.env.tr.events ∧
+      ((fin = "RET" ∧ Fin (g'.at (g.LA O1 O2)) P1 P2 c'') ∨
+       (fin = "STALL" ∧ Parked (g'.at (g.LA O1 O2)) P1 P2 c'')))
+    (fun _ _ h a b c d e => ⟨h.1.cong a b c d e, e.em.trans h.2⟩)
+    (fun c0 h => by
+      rcases bstage_poll ok h.1 with ⟨c', hh, hl, hS, hw, ha⟩ | ⟨k, c1, O1, O2, hk, hs, hl, hO, haf⟩ |
+          ⟨c', O1, O2, hh, hl, hO, hf⟩
+      · exact Or.inl ⟨c', hh.mono (by omega), hl, ⟨hS, hl.ts.em.trans h.2⟩, hw, ha⟩
+      · exact Or.inr ⟨k, c1, O1, O2, hk, hs, hl, hO, haf⟩
+      · have := hf.nokeep; have := hn.keep; omega)
+    (fun c0 n0 f0 hS0 hsg ⟨k, c1, O1, O2, hk, hs, hl, hO, haf⟩ hf0 hlen0 => by
+      obtain ⟨hsame, _⟩ := prePoll_same c0 n0 hsg
+      have hres := stage_poll (hn.ok.at (g.LA O1 O2)) (haf.stage hn)
+      obtain ⟨c', r, hh, hl2, ho⟩ := hres
+      have hin1 := hl.ts.inp
+      obtain ⟨c'', ⟨⟨e1, _, _, _⟩, P1, P2, hP, hfin⟩, hevs⟩ :=
+        run_from_out (hn.ok.at (g.LA O1 O2)) c0 n0 f0 _ hsg (hh.of_steps hs) (hl.trans hl2) (ho.mono hl)
+          (by rw [hsame.input] at hk hin1; omega) hf0 (by omega)
+      have hevs1 : ∀ s, s ∈ c1.env.tr.events → s ∈ c''.env.tr.events := fun s hs => hevs s (hl2.ts.evm s hs)
+      obtain ⟨acc, lost, hacc, hmem⟩ := haf.ra
+      rcases hfin with ⟨hr, hf⟩ | ⟨hr, hp⟩
+      · exact ⟨c'', "RET", hr, O1, O2, P1, P2, hO, hP, e1.trans hS0.2, ⟨acc, lost, hacc, hevs1 _ hmem⟩,
+          hevs1 _ haf.ev.2, Or.inl ⟨rfl, hf⟩⟩
+      · exact ⟨c'', "STALL", hr, O1, O2, P1, P2, hO, hP, e1.trans hS0.2, ⟨acc, lost, hacc, hevs1 _ hmem⟩,
+          hevs1 _ haf.ev.2, Or.inr ⟨rfl, hp⟩⟩)
+    (ans c.env.tr) c n fuel ⟨hst, hem⟩ hsegs (Nat.le_refl _) hf hlen
+  exact ⟨c'', fin, O1, O2, P1, P2, hrun, h1, h2, h3, h4, h5, h6⟩
 
 end Fcgi.E2E
